@@ -19,6 +19,7 @@ TxIn, TxOut, Spendable = Tx.TxIn, Tx.TxOut, Tx.Spendable
 
 PROP = "C13"
 DRIVER = "C13"
+EXTRA_PROPS = ["C13compose"]   # C13 x C07: fee="standard" without a byte-count oracle (see DESIGN.md section 0.3a)
 RULE = ("correspondence: one driver line per call of split_with_remainder / distribute_from_split_pool / create_tx "
         "(BTC network object) / total_in / total_out / fee / is_coinbase / validate_unspents / the four conversions / "
         "Decimal mul, div, quantize, int / distribute_st (result and object state afterwards, also after a raise) / history (a sequence "
@@ -26,7 +27,8 @@ RULE = ("correspondence: one driver line per call of split_with_remainder / dist
         "non-trivial = model returns a value (not an exception)")
 PARTIAL = ["Decimal <-> str (decimal.Decimal(str), str(Decimal)) is Python's: only direct checks "
            "(btc_to_satoshi(str(satoshi_to_btc(s))) == s, str form against an independent formatter)",
-           "fee='standard' needs len(tx.stream()): the byte count is an argument of the model (wire format is C07)",
+           "fee='standard': Model/TxBuild.v takes len(tx.stream()) as an argument; Model/TxBuildWire.v closes it with C07's stream model "
+           "(create_tx_wire / distribute_wire / recommended_fee_for_tx, Props/C13compose.v) and both forms are run against the implementation",
            "address -> script (network.contract.for_address) is outside the model: payables carry the script"]
 TRUSTED = ["hand model of decimal.Decimal (mul, truediv, _fix, quantize, _rescale, __int__ at prec 28, ROUND_HALF_EVEN, "
            "exponent limits not modelled), tied by correspondence against Python's decimal on random operands",
@@ -319,6 +321,97 @@ def impl_distribute(t, fee):
     return (c_tx(tx), zc)
 
 
+# ---- C13 x C07: fee="standard" with the byte count computed by the model (Model/TxBuildWire.v) ---------------
+def create_wire_line(spec, fee):
+    A = addresses()
+    sps = alist("%s:%s:%s:%s" % (canon(s[0]), canon(bytes.fromhex(s[1])), canon(bytes.fromhex(s[2])), canon(s[3])) for s in spec["spendables"])
+    pays = alist(("A:%s" % canon(A[ai][1])) if v is None else ("P:%s:%s" % (canon(A[ai][1]), canon(v))) for ai, v in spec["payables"])
+    return "create_tx_wire %s %s %s %s %s" % (sps, pays, a_fee(fee), canon(spec["lock_time"]), canon(spec["version"]))
+
+
+def gen_wire_spec(rng):
+    """create_tx specs aimed at the serialised size and at what struct.pack refuses: counts and script lengths around the
+    CompactSize thresholds, amounts / version / lock time / indices at and beyond their wire widths, odd hash lengths"""
+    A = addresses()
+    k = rng.random()
+    n_in = rng.choice([1, 1, 2, 3]) if k < 0.8 else rng.choice([252, 253, 254])
+    def script():
+        q = rng.random()
+        if q < 0.7:
+            return r_script(rng)
+        return bytes(rng.getrandbits(8) for _ in range(rng.choice([0, 1, 75, 76, 251, 252, 253, 254, 255, 256, 300])))
+    def hsh():
+        q = rng.random()
+        if q < 0.9:
+            return r_hash(rng)
+        return bytes(rng.getrandbits(8) for _ in range(rng.choice([0, 1, 31, 33, 40])))
+    def idx():
+        return rng.choice([0, 1, 7, FFFF, FFFF, FFFF + 1, -1, 2 ** 32 + 5, rng.getrandbits(32)])
+    sps = [[rng.choice([r_value(rng), rng.randint(1, MAX), 2 ** 64 - 1, 2 ** 64, 2 ** 64 + rng.randint(1, 10 ** 6)]) if rng.random() < 0.15 else r_value(rng),
+            script().hex(), hsh().hex(), idx() if rng.random() < 0.2 else rng.choice([0, 1, 2]), "obj"] for _ in range(n_in)]
+    n_out = rng.choice([1, 2, 2, 3, 4]) if rng.random() < 0.85 else rng.choice([252, 253, 254])
+    pays = []
+    for _ in range(n_out):
+        ai = rng.randrange(len(A))
+        q = rng.random()
+        if q < 0.45:
+            pays.append([ai, None])
+        elif q < 0.8:
+            pays.append([ai, max(1, r_value(rng) // rng.choice([2, 10, 1000, 10 ** 6]))])
+        elif q < 0.9:
+            pays.append([ai, rng.choice([-1, -rng.randint(1, 10 ** 6), 2 ** 64 - 1, 2 ** 64, 2 ** 64 + 1, 2 ** 63])])
+        else:
+            pays.append([ai, 0])
+    ver = rng.choice([1, 1, 2, 0, -1, 2 ** 32 - 1, 2 ** 32, 2 ** 31]) if rng.random() < 0.3 else rng.choice([1, 2])
+    lt = rng.choice([0, 1, 2 ** 32 - 1, 2 ** 32, -1, 500000000]) if rng.random() < 0.3 else 0
+    return {"spendables": sps, "payables": pays, "lock_time": lt, "version": ver}
+
+
+def impl_distribute_wire(t, fee):
+    return impl_distribute(t, fee)
+
+
+def impl_recommended_fee_for_tx(t):
+    return tx_fee.recommended_fee_for_tx(mk_tx(t))
+
+
+def impl_stream_len(t):
+    return byte_count(mk_tx(t))
+
+
+def wire_tx_specs(rng, tier):
+    """transactions for distribute_wire / recommended_fee_for_tx / stream_len: ordinary ones plus field-width and size-threshold ones"""
+    for _ in range(250 if tier == "quick" else 4000):
+        t = gen_tx_spec(rng, rng.random() < 0.5)
+        q = rng.random()
+        if q < 0.12 and t["outs"]:
+            i = rng.randrange(len(t["outs"]))
+            t["outs"][i] = (rng.choice([-1, 2 ** 64, 2 ** 64 - 1, -rng.randint(1, 1000), 2 ** 64 + 7]), t["outs"][i][1])
+        elif q < 0.2:
+            t["version"] = rng.choice([-1, 2 ** 32, 2 ** 32 - 1, 2 ** 40])
+        elif q < 0.28:
+            t["lock_time"] = rng.choice([-1, 2 ** 32, 2 ** 32 - 1])
+        elif q < 0.36 and t["ins"]:
+            i = rng.randrange(len(t["ins"]))
+            h, x, sc, sq = t["ins"][i]
+            t["ins"][i] = rng.choice([(h, 2 ** 32, sc, sq), (h, -1, sc, sq), (h, x, sc, 2 ** 32), (h[:rng.choice([0, 5, 31])], x, sc, sq),
+                                      (h + b"\x07\x08", x, sc, sq)])
+        elif q < 0.5:
+            n = rng.choice([0, 75, 76, 252, 253, 254, 255, 256, 65535, 65536])
+            sc = bytes(rng.getrandbits(8) for _ in range(min(n, 300))) + b"\0" * max(0, n - 300)
+            if t["outs"] and rng.random() < 0.6:
+                i = rng.randrange(len(t["outs"]))
+                t["outs"][i] = (t["outs"][i][0], sc)
+            elif t["ins"]:
+                i = rng.randrange(len(t["ins"]))
+                h, x, _, sq = t["ins"][i]
+                t["ins"][i] = (h, x, sc, sq)
+        elif q < 0.56:
+            m = rng.choice([252, 253, 254])
+            t["outs"] = [(rng.choice([0, 0, 5, 1000]), b"\x51") for _ in range(m)]
+        yield t
+
+
 # ---- validate_unspents scenarios -------------------------------------------------------------------
 KINDS = ["none", "missing-key", "wrong-tx-under-key", "value+1", "value-1", "value-zero", "script-changed", "script-truncated",
          "script-extended", "index-eq-len", "index-gt-len", "index-huge", "unspents-short", "unspents-long", "unspent-none",
@@ -525,6 +618,16 @@ def _base_model_cases(rng, tier):
         spec = gen_create_spec(rng)
         for f in create_fees(rng, spec):
             yield Case(create_line(spec, f), (lambda spec=spec, f=f: call13(impl_create, spec, f)), meta={"spec": spec, "fee": f})
+    # C13 x C07 (Props/C13compose.v): no byte-count argument — the model streams the transaction itself
+    for _ in range(500 if tier == "quick" else 8000):
+        spec = gen_create_spec(rng) if rng.random() < 0.5 else gen_wire_spec(rng)
+        fs = ["standard"] + ([rng.choice(create_fees(rng, spec))] if rng.random() < 0.3 else [])
+        for f in fs:
+            yield Case(create_wire_line(spec, f), (lambda spec=spec, f=f: call13(impl_create, spec, f)), meta={"spec": spec, "fee": f, "wire": True})
+    for t in wire_tx_specs(rng, tier):
+        yield Case("distribute_wire %s S" % a_tx(t), (lambda t=t: call13(impl_distribute_wire, t, "standard")))
+        yield Case("recommended_fee_for_tx " + a_tx(t), (lambda t=t: call13(impl_recommended_fee_for_tx, t)))
+        yield Case("stream_len " + a_tx(t), (lambda t=t: call13(impl_stream_len, t)))
     # coinbase predicates: every combination of hash zero / almost zero / other and index 0xffffffff / neighbours
     for h in (ZERO32, b"\0" * 31 + b"\1", b"\1" + b"\0" * 31, b"\0" * 31, b"\0" * 33, b"", r_hash(rng)):
         for i in (FFFF, FFFF - 1, FFFF + 1, 0, 1, -1):
